@@ -725,7 +725,11 @@ def run_one(index, seed, runner, tier, opts):
         vtime += info["vtime"]
         for v in viols[:1]:
             k = v["index"]
-            case = {"files": {p: util.enc_content(c) for p, c in files.items()}, "ops": copy.deepcopy(ops[:k + 1]), "extra": {"history": h, "log_level": log_level, "seed": seed}}
+            # the whole history is kept: what the caller still holds of operation k (a returned list) may have been
+            # changed by the operations after it; the shrinker drops whatever is not needed, before and after
+            ops_c = copy.deepcopy(ops)
+            ops_c[k]["_target"] = True
+            case = {"files": {p: util.enc_content(c) for p, c in files.items()}, "ops": ops_c, "extra": {"history": h, "log_level": log_level, "seed": seed}}
             violations.append({"case": case, "violation": v})
         if sample is None and h == 1:
             sample = {"run": index, "seed": seed, "history": [_op_brief(o) for o in ops], "n_rules": len(world[1]), "inputs": world[2] + world[3]}
@@ -747,5 +751,6 @@ def evaluate(case, runner):
     runner.state = {}
     ex_ = case.get("extra") or {}
     viols, _info = check_history(case["files"], case["ops"], runner, seed=int(ex_.get("seed") or 0), log_level=ex_.get("log_level"))
-    # the case is cut so that the violating operation is the last one
-    return [v for v in viols if v["index"] == len(case["ops"]) - 1]
+    # the violating operation is the marked one (the last one in files written before the marker existed)
+    t = next((i for i, o in enumerate(case["ops"]) if o.get("_target")), len(case["ops"]) - 1)
+    return [v for v in viols if v["index"] == t]
